@@ -577,3 +577,7 @@ def run(ctx):
                             fail="%s stores a compiled ignore set under a key that is not its applies-in directory (%s)" % (fname, sorted(kinds)))
     except Skip:
         pass
+
+    # ---- R03.10 an ignored directory contributes no ignore files of its own (discovery pruning, owned by C14)
+    ctx.rule("R03.10", "the ignore file of a directory that an ancestor's file ignores is never loaded, so it cannot re-include anything")
+    ctx.borrow("C14", ["R14.2"], "R03.10", "visit_path yields a directory only after check_dir accepted it against the filter grown so far")
